@@ -5,6 +5,7 @@ CONSTANTS
   BaseSeq <- NoBases
   WrapSeq <- WrapsAll
   RenSeq <- RensMC
+  DocSet <- DocBoth
   Family = "all"
   MaxFields = 1
   MaxDepth = 3
